@@ -243,7 +243,8 @@ class BreakpointHandler:
         """
         variable_prefix = None
         query = target
-        match = re.match(r':([bhBfj])(\d*):(\d+:)?([^:]*)', target)
+        # the target itself may contain ':' (every label declared inside a macro does), so it is everything that is left
+        match = re.fullmatch(r':([bhBfj])(\d*):(\d+:)?(.*)', target)
         if match:
             variable_type, variable_length, index_string, target = match.groups()
             if variable_length == '':
